@@ -97,6 +97,38 @@ def check(run):
             finally:
                 close()
             cases.append({"idx": idx, "obs": obs, "cfg": dict(cfg, variant=variant), "plan": None, "adocs": adocs})
+    # short posting lists kept inside the term dictionary (inlinelimit 3 / 9) whose weights are not all 1 although they
+    # add up to the number of postings (1/2 + 1/2 + 2; 1/2 + 3/2), and some that are all 1
+    for ii in range(2 if quick else 6):
+        keys = ["i%d" % j for j in range(6)]
+        adocs = {}
+        for j, k in enumerate(keys):
+            d = cworld.rand_adoc(rng, k, rich=False)
+            d["tb"] = {}
+            d["t"] = {"body": [], "title": []}
+            adocs[k] = d
+        # body term a: weights 1/2, 1/2, 2 (three documents); term b: 1, 1; title term a: 1/2 and 3/2 (tf 3 at boost 1/2)
+        for k, b4, body, title in (("i0", 2, [[1]], [[1]] * 3), ("i1", 2, [[1], [2]], []), ("i2", 8, [[1]], []),
+                                   ("i3", 4, [[2]], []), ("i4", 2, [], [[1]]), ("i5", 4, [[2, 2]], [[2]])):
+            adocs[k]["b4"] = b4
+            adocs[k]["t"]["body"], adocs[k]["t"]["title"] = list(body), list(title)
+        cfg = {"codec": "w3", "blocklimit": rng.choice([2, 128]), "inlinelimit": rng.choice([3, 4, 9]), "case": "inlined weights"}
+        variant = rng.randrange(6)
+        schema = cworld.make_schema(variant)
+        try:
+            rd, close = build(cfg, schema, adocs, keys)
+            try:
+                idx = cworld.abstract_index(rd, adocs)
+                obs = cworld.dump(rd, idx, schema, rng=None, maxterms=10 ** 6, columns=False)
+                obs = [o for o in obs if o["kind"] not in ("stored", "fieldlen")]
+                run.count(len(obs))
+            finally:
+                close()
+            cases.append({"idx": idx, "obs": obs, "cfg": dict(cfg, variant=variant), "plan": None, "adocs": adocs})
+        except Exception as ex:
+            cases.append({"idx": {"docs": []}, "obs": [{"kind": "error", "path": "building the index", "err": type(ex).__name__,
+                                                        "msg": str(ex)[:160], "where": content.where(ex)}],
+                          "cfg": cfg, "plan": None, "adocs": adocs})
     rejects = content.judge(run, cases, chunk=4)
     content.report(run, "c10", cases, rejects)
 
